@@ -12,7 +12,7 @@ CLAIMED = {
              "SIMD kernels are modelled (compress^n), not verified.",
         note="Trusted: Lean kernel; axioms propext/Classical.choice/Quot.sound; the correspondence harness "
              "(differential, bounded by its generators); Spec/*.lean transcriptions (tested on vectors); OpenSSL as "
-             "independent oracle. Open: proof that the loop fuel of the model always suffices (run = some).",
+             "independent oracle. The model's loop bounds are proved never to be reached (C06_total).",
         technique="Lean 4 proof over hand-written model + differential correspondence per family",
         engine="HashMB", ref="4.1, 5 C01"),
 }
@@ -21,11 +21,12 @@ CLAIMED["C06"] = dict(
     text="Proof (Lean 4) over the executable HashMB model, for every history of valid or rejected calls and every "
          "lane count / single-buffer threshold: per-call conservation of in-flight contexts (nothing lost, invented or "
          "handed back twice; handed-back contexts are out of every lane and not PROCESSING), in flight <=> in a lane, "
-         "occupied lanes <= lanes and duplicate-free, flush returns none iff nothing in flight, complete iff LAST, idle "
+         "occupied lanes <= lanes and duplicate-free, flush returns none iff nothing in flight, every call returns "
+         "(loops terminate), k flushes drain a manager holding k contexts, complete iff LAST, idle "
          "contexts accept UPDATE/LAST. Tie: correspondence of all 28 family managers + public API with the model, and "
          "model-independent monitors in the harness (exactly-once accounting, status bits, user_data, caller buffers, drain).",
-    note="Trusted: Lean kernel + standard axioms; harness (differential). Open: proof that the model's loop fuel "
-         "always suffices (termination of resubmit/flush) - today an out-of-fuel would show as a correspondence break. "
+    note="Trusted: Lean kernel + standard axioms; harness (differential). Termination of the resubmit/flush loops and the "
+         "finite drain (k contexts held => exactly k flushes hand them back, once each) are theorems (C06_total, C06_drain). "
          "user_data / caller buffers are not model state: covered by harness monitors only.",
     technique="Lean 4 invariant proof over hand-written model + differential correspondence + runtime monitors",
     engine="HashMB", ref="4.1, 5 C06")
